@@ -233,6 +233,26 @@ func runContracts(eng *Engine, prop, fnFilter, work string, timeout time.Duratio
 			case r.verdict == "unsat":
 				res.Verdict = "discharged"
 			case r.verdict == "sat":
+				// prefer a small counterexample (replayable): retry with bounded witness values
+				for _, bound := range []string{"16", "4096", "1048576"} {
+					var b strings.Builder
+					b.WriteString(q)
+					n := 0
+					for _, t := range vals {
+						if j.vc.witnessSort[t] == "Int" {
+							fmt.Fprintf(&b, "(assert (and (<= (- %s) %s) (<= %s %s)))\n", bound, t, t, bound)
+							n++
+						}
+					}
+					if n == 0 {
+						break
+					}
+					r2 := solve(work, j.o.Name+".small"+bound, b.String(), vals, to, false)
+					if r2.verdict == "sat" {
+						r = r2
+						break
+					}
+				}
 				res.Verdict = "failed"
 				res.Model = map[string]string{}
 				for t, v := range r.model {
